@@ -27,7 +27,8 @@ def showK (s : String) : String := if s.isEmpty then "~" else s
 
 def optS (s : String) : String := if s = "-" then "" else s
 def showS (s : String) : String := if s.isEmpty then "-" else s
-def parseExp (s : String) : Option (Option Nat) := if s = "-" then some none else s.toNat?.map some
+def parseExp (s : String) : Option (Option Nat) :=
+  if s = "-" then some none else if s = "z" then some (some 0) else s.toNat?.map some   -- `z`: the zero time (long past)
 def showExp : Option Nat → String | none => "-" | some e => toString e
 
 /-- canonical name of a version, extending the seen list -/
